@@ -160,6 +160,7 @@ def gen_jobs(tier, seed, env_text):
     add("rewritten forms: Tuple[T, ...]", [{"kind": "type", "t": T("tuplevar", "", [t])} for t in t1[:40]])
     look = [T("cls", "mtfx.lookalikes." + n) for n in ("TimeoutError", "Warning", "frozenset", "NoneType", "List", "Holder.int", "Union", "Set", "Dict",
                                                              "Generator", "Iterator", "TypedDict", "Tuple")]
+    look.append(T("cls", "mtfx.shapes.FalsyCls"))        # a class object whose truth value is False
     STRT, INTT = T("cls", "str"), T("cls", "int")
     shapes_of = [lambda c: c, lambda c: T("typeof", "", [c]), lambda c: T("list", "", [c]), lambda c: T("dict", "", [STRT, c]),
                  lambda c: T("union", "", [], [c, INTT]), lambda c: T("td", "", [], [T("req", "x", [c])]),
@@ -181,7 +182,7 @@ def gen_jobs(tier, seed, env_text):
               "K.Nested.meth", "K.Nested.nsm", "KSub.inst"]
     nf = lambda t: json.dumps(t).count('"k": "req"') + json.dumps(t).count('"k": "opt"')  # noqa: E731
     many_keys = sorted(tds, key=lambda t: (-nf(t), canon(t)))[:12]       # TypedDicts with several keys first
-    tpool = many_keys + tds[:8] + rng.sample(t1, 40 if q else 400)
+    tpool = many_keys + tds[:8] + rng.sample(t1, 40 if q else 400) + [T("cls", "mtfx.shapes.FalsyCls")]
     add("call traces: every fixture function x ret/yield in {absent, NoneType, type}",
         [{"kind": "call", "func": f, "types": [t, rng.choice(tpool)], "ret": r, "yld": y}
          for f in fnames for t in tpool for r in ("absent", "none", "type") for y in ("absent", "none", "type")])
